@@ -275,17 +275,38 @@ Proof.
     + intros now id Hf. rewrite cget_csetV, (Hid id Hf). reflexivity.
 Qed.
 
-Lemma inv_event_V c t s lg e s' :
-  ev_effect c t s e s' -> InvV c t s lg -> InvV c t s' (LEv t e :: lg).
+Lemma touch_scan c w lg :
+  touch c w lg = match scan c w lg with None => None | Some (tj, _, D) => Some (tmax tj D) end.
 Proof.
-  intros Heff H3 id now v Hn Hv. cbn [delivered].
+  induction lg as [|x lg IH]; simpl; auto.
+  destruct x as [t' w' b' r | t' e | ]; auto.
+  - destruct ((w' =? w)%N && r); auto.
+  - rewrite IH. destruct (scan c w lg) as [[[tj b] D]|]; auto.
+    destruct ((ev_w e =? w)%N && confirmed c e); auto.
+Qed.
+
+(* a record that is found was not certainly absent *)
+Lemma found_not_absent c t s lg w v :
+  InvW c t s lg w -> cget t w (s_cache s) = Some v -> absent c lg t w = false.
+Proof.
+  intros HW Hv. specialize (HW t (Z.le_refl t)). unfold absent. rewrite touch_scan.
+  destruct (scan c w lg) as [[[tj b] D]|]; [|congruence].
+  destruct HW as (_ & _ & _ & _ & E).
+  destruct ((0 <? c_window c) && (tmax tj D + c_window c <? t)) eqn:Ex; auto.
+  rewrite E in Hv; [discriminate | lia | lia].
+Qed.
+
+Lemma inv_event_V c t s lg e s' :
+  ev_effect c t s e s' -> InvW c t s lg (ev_w e) -> InvV c t s lg -> InvV c t s' (LEv t e :: lg).
+Proof.
+  intros Heff HW H3 id now v Hn Hv. cbn [delivered].
   inversion Heff; subst.
   - rewrite (H3 id now v Hn Hv). apply orb_true_r.
   - simpl in Hv. rewrite cget_csetV in Hv. destruct (vid_eqb id (ev_id e)) eqn:E.
-    + apply vid_eqb_eq in E. subst id. rewrite H, vid_eqb_refl. reflexivity.
+    + apply vid_eqb_eq in E. subst id. rewrite H, vid_eqb_refl, (found_not_absent _ _ _ _ _ _ HW H1). reflexivity.
     + rewrite (H3 id now v Hn Hv). apply orb_true_r.
   - simpl in Hv. rewrite cget_csetV in Hv. destruct (vid_eqb id (ev_id e)) eqn:E.
-    + apply vid_eqb_eq in E. subst id. rewrite H, vid_eqb_refl. reflexivity.
+    + apply vid_eqb_eq in E. subst id. rewrite H, vid_eqb_refl, (found_not_absent _ _ _ _ _ _ HW H1). reflexivity.
     + rewrite (H3 id now v Hn Hv). apply orb_true_r.
 Qed.
 
